@@ -1,7 +1,7 @@
 //! tv: one binary, one sub-command per engine.
 //! Output protocol: lines starting with "@@" are JSON records for the driver (/verif/check).
 use tv::util::*;
-use tv::{conc, hist, shadow, thin, tk};
+use tv::{cmp, conc, ctor, faults, hist, shadow, thin, tk};
 
 
 fn main() {
@@ -10,11 +10,18 @@ fn main() {
     // the shadow allocator is the allocator oracle only in plain native builds
     let want_shadow = args.u64("shadow", 1) == 1 && !cfg!(miri);
     shadow::enable(want_shadow);
+    if want_shadow {
+        install_crash_reporter();
+    }
     let code = match args.engine.as_str() {
         "noop" => 0,
         "hist" => engine_hist(&args),
         "thin" => engine_thin(&args),
         "conc" => engine_conc(&args),
+        "ctor" => engine_ctor(&args),
+        "faults" => engine_faults(&args),
+        "cmp" => engine_cmp(&args),
+        "allocchild" => faults::alloc_child(args.u64("site", 0) as usize, args.u64("nth", 1) as i64),
         other => {
             eprintln!("unknown engine {:?}", other);
             2
@@ -164,6 +171,241 @@ fn engine_conc(args: &Args) -> i32 {
         jset(&st.ileave),
         jset(&st.nontrivial),
         hooked,
+        jlist(&st.sample)
+    );
+    if nviol > 0 {
+        1
+    } else {
+        0
+    }
+}
+
+fn ctor_dispatch(pair: usize, c: usize, n: usize, regime: u8, cap: usize, st: &mut ctor::CtStats) -> R {
+    match pair {
+        0 => ctor::case::<tk::T8, tk::T8>(c, n, regime, cap, st),
+        1 => ctor::case::<tk::Z, tk::T8>(c, n, regime, cap, st),
+        2 => ctor::case::<tk::T64, tk::T1>(c, n, regime, cap, st),
+        3 => ctor::case::<tk::T8, tk::T32>(c, n, regime, cap, st),
+        4 => ctor::case::<tk::T1, tk::TB>(c, n, regime, cap, st),
+        5 => ctor::case::<tk::T8, tk::Z>(c, n, regime, cap, st),
+        6 => ctor::case::<tk::Z16, tk::T64>(c, n, regime, cap, st),
+        _ => ctor::case::<tk::T32, tk::Z16>(c, n, regime, cap, st),
+    }
+}
+const CTOR_PAIRS: usize = 8;
+
+fn engine_ctor(args: &Args) -> i32 {
+    let seed = args.u64("seed", 1);
+    let shard = args.u64("shard", 0);
+    let nshards = args.u64("nshards", 1).max(1);
+    let full = args.has("full");
+    let maxlen = args.u64("maxlen", 1000) as usize;
+    let rot = args.u64("rot", 1);
+    let mut lens: Vec<usize> = (0..=70).collect();
+    lens.extend([255, 256, 1000]);
+    let mut st = ctor::CtStats::new();
+    let mut nviol = 0;
+    let mut idx = 0u64;
+    let mut run = |r: R, case: String, nviol: &mut i32| {
+        if let Err(v) = r {
+            if *nviol < 5 {
+                emit_violation(&v, "ctor", seed, &case, &[]);
+            }
+            *nviol += 1;
+        }
+    };
+    for pair in 0..CTOR_PAIRS {
+        for c in 0..ctor::NCTORS {
+            for &n in lens.iter().filter(|n| **n <= maxlen) {
+                idx += 1;
+                if idx % nshards != shard {
+                    continue;
+                }
+                let combos: Vec<(u8, usize)> = if full && matches!(c, 0 | 1 | 2 | 4 | 6) {
+                    (0..5u8).flat_map(|r| (0..4usize).map(move |k| (r, k))).collect()
+                } else {
+                    (0..rot).map(|k| (((idx + seed + k) % 5) as u8, ((idx / 5 + seed + k * 3) % 4) as usize)).collect()
+                };
+                for (regime, cap) in combos {
+                    let r = ctor_dispatch(pair, c, n, regime, cap, &mut st);
+                    run(r, format!("pair={} c={} n={} regime={} cap={}", pair, c, n, regime, cap), &mut nviol);
+                }
+            }
+        }
+    }
+    if shard == 0 {
+        for c in 0..5 {
+            run(ctor::sized_case::<tk::T8>(c, &mut st), format!("sized T8 c={}", c), &mut nviol);
+            run(ctor::sized_case::<tk::T32>(c, &mut st), format!("sized T32 c={}", c), &mut nviol);
+            run(ctor::sized_case::<tk::Z>(c, &mut st), format!("sized Z c={}", c), &mut nviol);
+            run(ctor::sized_case::<tk::TB>(c, &mut st), format!("sized TB c={}", c), &mut nviol);
+            run(ctor::sized_case::<tk::T64>(c, &mut st), format!("sized T64 c={}", c), &mut nviol);
+        }
+        for &n in lens.iter().filter(|n| **n <= maxlen) {
+            run(ctor::copy_cases(n, &mut st), format!("copy n={}", n), &mut nviol);
+        }
+    }
+    println!(
+        "@@{{\"t\":\"stats\",\"engine\":\"ctor\",\"counts\":{},\"sets\":{{\"ctor_cases\":{}}},\"shadow\":{},\"checked_frees\":{},\"overflow\":{},\"sample\":{}}}",
+        st.counts.json(),
+        jset(&st.cases),
+        shadow::active(),
+        shadow::checked_frees(),
+        shadow::overflowed(),
+        jlist(&st.sample)
+    );
+    if nviol > 0 {
+        1
+    } else {
+        0
+    }
+}
+
+fn engine_faults(args: &Args) -> i32 {
+    let seed = args.u64("seed", 1);
+    let sizes: Vec<usize> = if args.has("big") { vec![0, 1, 2, 5, 17] } else if args.has("small") { vec![0, 2] } else { vec![0, 1, 3] };
+    let part = args.str("part", "all");
+    let only = if args.has("only") { Some(args.u64("only", 0) as usize) } else { None };
+    let sel = |i: usize| only.map(|o| o == i).unwrap_or(true);
+    let mut st = faults::FStats::new();
+    let mut nviol = 0;
+    let mut run = |r: R, case: String, nviol: &mut i32| -> bool {
+        if let Err(v) = r {
+            if v.oracle == "harness" {
+                eprintln!("harness problem: {}", v.msg);
+                return false;
+            }
+            if *nviol < 6 {
+                emit_violation(&v, "faults", seed, &case, &[]);
+            }
+            *nviol += 1;
+        }
+        true
+    };
+    if part == "all" || part == "iter" {
+        for site in (0..faults::ITER_SITES).filter(|s| sel(*s)) {
+            for &n in &sizes {
+                run(faults::iter_panics(site, n, &mut st), format!("iter site={} n={}", site, n), &mut nviol);
+            }
+            // lying iterators: every (reported, actual) with actual 0..=6, |diff| <= 2
+            for actual in 0..=6usize {
+                for d in -2i64..=2 {
+                    let rep = actual as i64 + d;
+                    if rep < 0 {
+                        continue;
+                    }
+                    run(faults::iter_lies(site, actual, vec![rep as usize], &mut st), format!("lie site={} actual={} rep={}", site, actual, rep), &mut nviol);
+                }
+                // answers that change between calls
+                for (a, b) in [(0i64, 1i64), (1, 0), (0, -1), (-1, 0), (1, -1), (2, 0), (0, 2)] {
+                    let (ra, rb) = (actual as i64 + a, actual as i64 + b);
+                    if ra < 0 || rb < 0 {
+                        continue;
+                    }
+                    run(
+                        faults::iter_lies(site, actual, vec![ra as usize, rb as usize], &mut st),
+                        format!("lie site={} actual={} rep=[{},{}]", site, actual, ra, rb),
+                        &mut nviol,
+                    );
+                    run(
+                        faults::iter_lies(site, actual, vec![ra as usize, rb as usize, actual], &mut st),
+                        format!("lie site={} actual={} rep=[{},{},truth]", site, actual, ra, rb),
+                        &mut nviol,
+                    );
+                }
+            }
+        }
+    }
+    if part == "all" || part == "clone" {
+        for site in (0..faults::CLONE_SITES).filter(|s| sel(*s)) {
+            for co in 0..faults::CO_KINDS {
+                run(faults::clone_panics(site, co, &mut st), format!("clone site={} co={}", site, co), &mut nviol);
+            }
+        }
+    }
+    if part == "all" || part == "closure" {
+        for site in (0..faults::CLOSURE_SITES).filter(|s| sel(*s % 3)) {
+            for shared in [false, true] {
+                run(faults::closure_panics(site, shared, &mut st), format!("closure site={} shared={}", site, shared), &mut nviol);
+            }
+        }
+    }
+    if part == "all" || part == "cmp" {
+        for h in (0..faults::CMP_HANDLES).filter(|s| sel(*s)) {
+            for op in 0..faults::CMP_OPS {
+                run(faults::cmp_panics(h, op, &mut st), format!("cmp h={} op={}", h, op), &mut nviol);
+            }
+        }
+    }
+    if (part == "all" || part == "alloc") && shadow::active() {
+        for site in 0..faults::ALLOC_SITES {
+            if !run(faults::alloc_failures(site, &mut st), format!("alloc site={}", site), &mut nviol) {
+                return 3;
+            }
+        }
+    }
+    let total = st.counts.get("faults.iter.runs") + st.counts.get("faults.lie.runs") + st.counts.get("faults.clone.runs") + st.counts.get("faults.closure.runs") + st.counts.get("faults.cmp.runs")
+        + st.counts.get("faults.alloc.aborted-via-alloc-error") + st.counts.get("faults.alloc.no-more-allocations");
+    st.counts.add("faults.injected_runs", total);
+    println!(
+        "@@{{\"t\":\"stats\",\"engine\":\"faults\",\"counts\":{},\"sets\":{{\"fault_cases\":{}}},\"shadow\":{},\"sample\":{}}}",
+        st.counts.json(),
+        jset(&st.cases),
+        shadow::active(),
+        jlist(&st.sample)
+    );
+    if nviol > 0 {
+        1
+    } else {
+        0
+    }
+}
+
+fn engine_cmp(args: &Args) -> i32 {
+    let seed = args.u64("seed", 1);
+    let limit = args.u64("limit", 0) as usize; // 0 = whole domain
+    let extra = args.u64("extra", 60) as usize;
+    let class = args.str("class", "all");
+    let mut st = cmp::CmpStats::new();
+    let mut nviol = 0;
+    let mut dom = cmp::domain();
+    let exhaustive = limit == 0;
+    if limit > 0 {
+        // a seeded subset (interpreters)
+        let mut rng = Rng::new(seed);
+        let mut pick = Vec::new();
+        for _ in 0..limit {
+            pick.push(dom[rng.below(dom.len())].clone());
+        }
+        dom = pick;
+    }
+    let more = cmp::seeded(seed, extra);
+    for (name, vals) in [("domain", &dom), ("seeded", &more)] {
+        if vals.is_empty() {
+            continue;
+        }
+        let mut run = |r: R, cls: &str| {
+            if let Err(v) = r {
+                emit_violation(&v, "cmp", seed, &format!("{} {}", name, cls), &[]);
+                nviol += 1;
+            }
+        };
+        if class == "all" || class == "total" {
+            run(cmp::class_total(vals, &mut st), "total");
+        }
+        if class == "all" || class == "partial" {
+            run(cmp::class_partial(vals, &mut st), "partial");
+        }
+        if class == "all" || class == "eq" {
+            run(cmp::class_eq(vals, &mut st), "eq");
+        }
+    }
+    st.sample.push(format!("{:?} vs {:?} compared through Arc<HeaderSlice>, with recorded length, ThinArc, protected Arc, Arc<[T]>, Arc<T>, OffsetArc, ArcBorrow, ArcUnion", dom[0], dom[dom.len() - 1]));
+    println!(
+        "@@{{\"t\":\"stats\",\"engine\":\"cmp\",\"counts\":{},\"sets\":{{\"cmp_values\":{}}},\"exhaustive_domain\":{},\"sample\":{}}}",
+        st.counts.json(),
+        jset(&st.cases),
+        exhaustive,
         jlist(&st.sample)
     );
     if nviol > 0 {
